@@ -10,6 +10,9 @@
 #include <stdexcept>
 #include <limits>
 #include <type_traits>
+#ifdef FASTSCAPELIB_VERIF_HOOKS
+#include <vector>
+#endif
 
 #include "xtensor/xbroadcast.hpp"
 #include "xtensor/xtensor.hpp"
@@ -210,6 +213,18 @@ namespace fastscapelib
             return m_n_corr;
         };
 
+#ifdef FASTSCAPELIB_VERIF_HOOKS
+        /**
+         * Verification-only: indices of the nodes for which erosion has been
+         * limited during the last computed time-step (``n_corr`` only gives
+         * their number).
+         */
+        const std::vector<size_type>& verif_corrected_nodes() const
+        {
+            return m_verif_corrected_nodes;
+        }
+#endif
+
         /**
          * Solve SPL for one time step.
          *
@@ -231,6 +246,9 @@ namespace fastscapelib
         double m_tolerance;
         bool m_linear;
         size_type m_n_corr;
+#ifdef FASTSCAPELIB_VERIF_HOOKS
+        std::vector<size_type> m_verif_corrected_nodes;
+#endif
     };
 
     template <class FG, class S>
@@ -248,6 +266,9 @@ namespace fastscapelib
         // reset
         m_erosion.fill(0);
         m_n_corr = 0;
+#ifdef FASTSCAPELIB_VERIF_HOOKS
+        m_verif_corrected_nodes.clear();
+#endif
 
         // iterate over graph nodes in the bottom->up direction
         for (const auto& inode : flow_graph_impl.nodes_indices_bottomup())
@@ -360,6 +381,9 @@ namespace fastscapelib
                 // depressions / flat channels by arbitrarily limiting
                 // erosion
                 m_n_corr++;
+#ifdef FASTSCAPELIB_VERIF_HOOKS
+                m_verif_corrected_nodes.push_back(inode);
+#endif
                 inode_elevation_updated = elevation_flooded + std::numeric_limits<data_type>::min();
             }
 
